@@ -145,7 +145,7 @@ RetFails(c, s, x) ==
 Nil == [e |-> "none"]
 TInit == i = 1 /\ cur = Nil /\ sum = Zero /\ st = St0 /\ h = <<>> /\ res = <<>> /\ nf = -1
 
-Report(fs) == fs = {} \/ EmitJ([line |-> i, id |-> cur.id, eng |-> cur.eng, fails |-> fs])
+Report(fs) == IF fs = {} THEN TRUE ELSE EmitJ([line |-> i, id |-> cur.id, eng |-> cur.eng, fails |-> fs])
 
 (* The checksum a body returns is a function of the words it recorded, so the result check is made against the   *)
 (* recorded words: a wrong parameter observation is reported once (ObsFails), not again in every result slot. *)
